@@ -690,16 +690,33 @@ Definition cardano_double (a b c : R) : list R :=
   let q2 := card_q a b c / 2 in
   let u1 := if ltb ROps q2 0 then crt (- q2) else - crt q2 in
   [2 * u1 - a / (3 / 1); - u1 - a / (3 / 1)].
-Definition cardano_one (a b c : R) : list R :=
+(* one real root: the cube root that does not cancel is taken, the other one obtained from u1 * v1 = p / 3
+   (numerically stable form, repo fix "Cardano one-real-root branch"; over R it is the classical formula) *)
+Definition cardano_uv (a b c : R) : R * R :=
+  let p3 := card_p a b / 3 in
   let q2 := card_q a b c / 2 in
   let sd := sqrt (card_disc a b c) in
-  let u1 := crt (sd - q2) in
-  let v1 := crt (sd + q2) in
+  if ltb ROps q2 0 then let u1 := crt (sd - q2) in (u1, p3 / u1)
+  else let v1 := crt (sd + q2) in (p3 / v1, v1).
+Definition cardano_one (a b c : R) : list R :=
+  let '(u1, v1) := cardano_uv a b c in
   [u1 - v1 - a / 3].
 Definition cardano_monic (a b c : R) : list R :=
   if ltb ROps (card_disc a b c) 0 then sort_ ROps (filter keep01 (cardano_three a b c))
   else if eqb ROps (card_disc a b c) 0 then sort_ ROps (filter keep01 (cardano_double a b c))
   else filter keep01 (cardano_one a b c).
+(* the literal shape of the generated code: the pair (u1, v1) is destructured around the filter *)
+Definition cardano_monic_gen (a b c : R) : list R :=
+  if ltb ROps (card_disc a b c) 0 then sort_ ROps (filter keep01 (cardano_three a b c))
+  else if eqb ROps (card_disc a b c) 0 then sort_ ROps (filter keep01 (cardano_double a b c))
+  else let '(u1, v1) := cardano_uv a b c in filter keep01 [u1 - v1 - a / 3].
+Lemma cardano_monic_gen_eq a b c : cardano_monic_gen a b c = cardano_monic a b c.
+Proof.
+  unfold cardano_monic_gen, cardano_monic, cardano_one.
+  destruct (ltb ROps (card_disc a b c) 0); [reflexivity | ].
+  destruct (eqb ROps (card_disc a b c) 0); [reflexivity | ].
+  destruct (cardano_uv a b c); reflexivity.
+Qed.
 
 (* power-basis coefficients of the y-polynomial, as the generated code computes them: y(t) = D t^3 + A t^2 + B t + C *)
 Definition cubic_A (c : seg4 R) : R := 3 * py (c0 c) - 6 * py (c1 c) + 3 * py (c2 c).
@@ -717,7 +734,12 @@ Lemma cubic_findRoots_unfold (c : seg4 R) :
   if leb ROps (Rabs (cubic_D c)) (cubic_thr c)
   then utils_quadraticRoots ROps (cubic_A c) (cubic_B c) (cubic_C c)
   else cardano_monic (cubic_A c / cubic_D c) (cubic_B c / cubic_D c) (cubic_C c / cubic_D c).
-Proof. reflexivity. Qed.
+Proof.
+  transitivity (if leb ROps (Rabs (cubic_D c)) (cubic_thr c)
+                then utils_quadraticRoots ROps (cubic_A c) (cubic_B c) (cubic_C c)
+                else cardano_monic_gen (cubic_A c / cubic_D c) (cubic_B c / cubic_D c) (cubic_C c / cubic_D c)); [reflexivity | ].
+  rewrite cardano_monic_gen_eq. reflexivity.
+Qed.
 
 (* sorted(): the insertion sort of Base.Ops is a permutation and produces a non-decreasing list *)
 Lemma insert_sorted_In (x t : R) l : In t (insert_sorted ROps x l) <-> t = x \/ In t l.
@@ -796,22 +818,45 @@ Lemma depressed_root_inv a b c t :
 Proof. intros H. rewrite <- H. unfold card_p, card_q. field. Qed.
 
 (** D1. discriminant > 0: the single reported value is a zero of the monic cubic. *)
+Lemma cardano_uv_facts a b c :
+  0 < card_disc a b c ->
+  let u1 := fst (cardano_uv a b c) in let v1 := snd (cardano_uv a b c) in
+  let q2 := card_q a b c / 2 in let p3 := card_p a b / 3 in let sd := sqrt (card_disc a b c) in
+  u1 * u1 * u1 = sd - q2 /\ v1 * v1 * v1 = sd + q2 /\ u1 * v1 = p3.
+Proof.
+  intros Hd. cbv zeta.
+  set (p := card_p a b). set (q := card_q a b c). set (q2 := q / 2). set (p3 := p / 3).
+  set (sd := sqrt (card_disc a b c)).
+  assert (Hdisc : card_disc a b c = q2 * q2 + p3 * p3 * p3) by reflexivity.
+  assert (Hsd : sd * sd = q2 * q2 + p3 * p3 * p3) by (rewrite <- Hdisc; apply sqrt_sqrt; lra).
+  assert (Hsd0 : 0 < sd) by (apply sqrt_lt_R0; exact Hd).
+  unfold cardano_uv. cbv zeta. fold p q. fold q2 p3 sd.
+  destruct (ltb ROps q2 0) eqn:L; cbn [fst snd].
+  - apply Rltb_true in L.
+    set (u1 := crt (sd - q2)).
+    assert (Hu : u1 * u1 * u1 = sd - q2) by apply crt_cube.
+    assert (Hu0 : u1 <> 0) by (intros E; rewrite E in Hu; lra).
+    split; [exact Hu | ]. split; [ | field; exact Hu0].
+    replace (p3 / u1 * (p3 / u1) * (p3 / u1)) with (p3 * p3 * p3 / (u1 * u1 * u1)) by (field; exact Hu0).
+    rewrite Hu. apply (Rmult_eq_reg_r (sd - q2)); [ | lra]. field_simplify; [ | lra]. nra.
+  - apply Rltb_false in L.
+    set (v1 := crt (sd + q2)).
+    assert (Hv : v1 * v1 * v1 = sd + q2) by apply crt_cube.
+    assert (Hv0 : v1 <> 0) by (intros E; rewrite E in Hv; lra).
+    split; [ | split; [exact Hv | field; exact Hv0]].
+    replace (p3 / v1 * (p3 / v1) * (p3 / v1)) with (p3 * p3 * p3 / (v1 * v1 * v1)) by (field; exact Hv0).
+    rewrite Hv. apply (Rmult_eq_reg_r (sd + q2)); [ | lra]. field_simplify; [ | lra]. nra.
+Qed.
 Lemma cardano_one_root_sound a b c t :
   0 < card_disc a b c -> In t (cardano_one a b c) -> t * t * t + a * t * t + b * t + c = 0.
 Proof.
-  intros Hd [<- | []].
-  set (p := card_p a b). set (q := card_q a b c). set (q2 := q / 2). set (p3 := p / 3).
-  set (sd := sqrt (card_disc a b c)). set (u1 := crt (sd - q2)). set (v1 := crt (sd + q2)).
-  assert (Hdisc : card_disc a b c = q2 * q2 + p3 * p3 * p3) by reflexivity.
-  assert (Hsd : sd * sd = q2 * q2 + p3 * p3 * p3) by (rewrite <- Hdisc; apply sqrt_sqrt; lra).
-  assert (Hu : u1 * u1 * u1 = sd - q2) by apply crt_cube.
-  assert (Hv : v1 * v1 * v1 = sd + q2) by apply crt_cube.
-  assert (Huv : u1 * v1 = p3).
-  { apply cube_inj. replace (u1 * v1 * (u1 * v1) * (u1 * v1)) with ((u1 * u1 * u1) * (v1 * v1 * v1)) by ring.
-    rewrite Hu, Hv. lra. }
+  intros Hd Hin. pose proof (cardano_uv_facts a b c Hd) as F. cbv zeta in F.
+  unfold cardano_one in Hin. destruct (cardano_uv a b c) as [u1 v1]. cbn [fst snd] in F.
+  destruct F as (Hu & Hv & Huv). destruct Hin as [<- | []].
+  set (p := card_p a b) in *. set (q := card_q a b c) in *.
   apply depressed_root. fold p q.
   replace ((u1 - v1) * (u1 - v1) * (u1 - v1)) with (u1 * u1 * u1 - v1 * v1 * v1 - 3 * (u1 * v1) * (u1 - v1)) by ring.
-  rewrite Hu, Hv, Huv. unfold p3, q2. field.
+  rewrite Hu, Hv, Huv. field.
 Qed.
 
 (** D2. discriminant = 0: both reported values are zeros of the monic cubic. *)
@@ -1070,10 +1115,11 @@ Lemma cardano_one_root_complete a b c t :
   In t (filter keep01 (cardano_one a b c)).
 Proof.
   intros Hd I Z. apply filter_In. split; [ | apply keep01_true; exact I].
-  unfold cardano_one. cbv zeta. left.
-  match goal with |- ?r = t => set (r0 := r) end.
-  assert (Z0 : r0 * r0 * r0 + a * r0 * r0 + b * r0 + c = 0).
-  { apply cardano_one_root_sound; [exact Hd | left; reflexivity]. }
+  assert (S0 : forall r0, In r0 (cardano_one a b c) -> r0 * r0 * r0 + a * r0 * r0 + b * r0 + c = 0)
+    by (intros r0; apply cardano_one_root_sound; exact Hd).
+  unfold cardano_one in *. destruct (cardano_uv a b c) as [u1 v1]. left.
+  match goal with |- ?r = t => set (r0 := r) in * end.
+  assert (Z0 : r0 * r0 * r0 + a * r0 * r0 + b * r0 + c = 0) by (apply S0; left; reflexivity).
   apply depressed_root_inv in Z. apply depressed_root_inv in Z0.
   pose proof (depressed_unique _ _ _ _ Hd Z0 Z). lra.
 Qed.
@@ -1210,7 +1256,7 @@ Proof.
   unfold cardano_monic in Hin |- *.
   destruct (ltb ROps (card_disc _ _ _) 0) eqn:L1; [apply Rltb_true in L1; lra | ].
   destruct (eqb ROps (card_disc _ _ _) 0) eqn:L2; [apply Reqb_true in L2; lra | ].
-  unfold cardano_one in Hin |- *. cbv zeta in Hin |- *. cbn [filter] in Hin |- *.
+  unfold cardano_one in Hin |- *. destruct (cardano_uv _ _ _) as [u1 v1]. cbn [filter] in Hin |- *.
   destruct (keep01 _); [ | destruct Hin]. destruct Hin as [-> | []]. reflexivity.
 Qed.
 
